@@ -1,7 +1,7 @@
 package rules
 
 import (
-	"go/token"
+	"go/types"
 	"strings"
 
 	"golang.org/x/tools/go/ssa"
@@ -468,9 +468,9 @@ func c20(c *Ctx) {
 			var conv []cfgx.Edge
 			for _, b := range fn.Blocks {
 				for _, in := range b.Instrs {
-					if bo, ok := in.(*ssa.BinOp); ok && bo.Op == token.EQL {
+					if bo, ok := in.(*ssa.BinOp); ok && isEqOrNeq(bo) {
 						if s, isC := cfgx.ConstString(bo.Y); isC && s == "Webhook" {
-							t, _ := cfgx.CondEdges(bo)
+							t, _ := eqEdges(bo)
 							conv = append(conv, t...)
 						}
 					}
@@ -522,7 +522,7 @@ func sameKindIndex(fn *ssa.Function, pack, idx ssa.Value) bool {
 	idx = sole(idx)
 	for _, b := range fn.Blocks {
 		for _, in := range b.Instrs {
-			if mu, ok := in.(*ssa.MapUpdate); ok && sole(mu.Map) == idx {
+			if mu, ok := in.(*ssa.MapUpdate); ok && (sole(mu.Map) == idx || sameVar(mu.Map, idx) || fieldCarries(idx, sole(mu.Map))) {
 				// value = x.GetName() where x is element of a list of the same kind
 				for _, ci := range flow.Strict.CallsIn(mu.Value) {
 					if r := cfgx.Receiver(ci); r != nil {
@@ -547,4 +547,48 @@ func unTuple(v ssa.Value) ssa.Value {
 		return ex.Tuple
 	}
 	return v
+}
+
+// sameVar: both values read the same variable / field (through copies).
+func sameVar(a, b ssa.Value) bool {
+	ra, pa, oka := flow.AccessPathC(a)
+	rb, pb, okb := flow.AccessPathC(b)
+	return oka && okb && ra == rb && pa == pb
+}
+
+// fieldCarries: idx reads a struct field into which m was stored (a small
+// struct bundling the per-kind indexes). The field itself is matched by name.
+func fieldCarries(idx, m ssa.Value) bool {
+	var fieldName string
+	switch x := idx.(type) {
+	case *ssa.Field:
+		st, ok := x.X.Type().Underlying().(*types.Struct)
+		if !ok {
+			return false
+		}
+		fieldName = st.Field(x.Field).Name()
+	case *ssa.UnOp:
+		fa, ok := x.X.(*ssa.FieldAddr)
+		if !ok {
+			return false
+		}
+		st := fa.X.Type().Underlying().(*types.Pointer).Elem().Underlying().(*types.Struct)
+		fieldName = st.Field(fa.Field).Name()
+	default:
+		return false
+	}
+	if m.Referrers() == nil {
+		return false
+	}
+	for _, r := range *m.Referrers() {
+		if st, ok := r.(*ssa.Store); ok && st.Val == m {
+			if fa, ok := st.Addr.(*ssa.FieldAddr); ok {
+				s := fa.X.Type().Underlying().(*types.Pointer).Elem().Underlying().(*types.Struct)
+				if s.Field(fa.Field).Name() == fieldName {
+					return true
+				}
+			}
+		}
+	}
+	return false
 }
